@@ -272,3 +272,14 @@ func sweepC03(t *testing.T, enc *json.Encoder, bw *bufio.Writer, rs uint64, dead
 		}
 	}
 }
+
+// TestRealUploadHelper runs a fixed sequence of LocalBackend calls on the real
+// file system; tools/strace_fidelity.py traces it and compares the system-call
+// sequence with the one the simulated os records for the same calls (C13).
+func TestRealUploadHelper(t *testing.T) {
+	dir := os.Getenv("VERIF_REAL_UPLOAD_DIR")
+	if dir == "" {
+		t.Skip("no VERIF_REAL_UPLOAD_DIR")
+	}
+	realUploadSequence(t, dir)
+}
